@@ -74,12 +74,12 @@ func c32Gen(t *rapid.T) c32Case {
 			return s
 		case "maxdata":
 		default:
-			s.S = rapid.IntRange(0, c32Slots-1).Draw(t, "s")
+			s.S = rapid.SampledFrom([]int{0, 0, 0, 1, 2, 3, 3}).Draw(t, "s") // < c32Slots
 		}
 		switch s.Kind {
 		case "write":
 			s.N = amount.Draw(t, "n")
-			s.Flush = rapid.Bool().Draw(t, "flush")
+			s.Flush = rapid.IntRange(0, 3).Draw(t, "flush") != 0
 		case "reset", "stop":
 			s.N = rapid.SampledFrom([]int64{0, 1, 7, 1 << 30}).Draw(t, "code")
 		case "maxsd", "maxdata":
